@@ -21,6 +21,7 @@ func init() {
 			"P3 include recursion is bounded: a file is parsed recursively only when it is not yet in the processed set, and it is inserted before the recursive call; the includer graph stays acyclic: an edge is added to an already known file only where the cycle check (a recursive walker over SourceFile.IncludedFrom) returned nil, or every such walker carries a visited set, " +
 			"P5 the nil *Pipeline with which the top-level call is compiled (followed from the literal nil through direct argument passing) is never dereferenced without a dominating nil test. " +
 			"P7 attachComments allocates nothing sized by the remaining comments; P8 ErrorList.If never returns a slice of its receiver as the list. " +
+			"P9 every strings.Repeat / bytes.Repeat count is a non-negative constant, clamped, guarded, or a difference whose minuend is an unconditional running maximum at every origin; P10 every error returned by the type registration functions is nil or a located wrapError; P11 every successful return of compilePipelineDecs has passed a search for cycles of pipeline calls. " +
 			"NOT decided: other panics in the compile phase (enumerated as information), index panics in error rendering, time/memory proportionality, errors without a position.",
 		Assumptions: append([]string{"Go's regexp is linear-time (RE2); the goyacc skeleton is trusted"}, commonAssumptions...),
 	}
@@ -177,6 +178,9 @@ func runC08(c *an.Ctx) {
 	ruleP6(c)
 	ruleP7(c)
 	ruleP8(c)
+	ruleP9(c)
+	ruleP10(c)
+	ruleP11(c)
 	// information: explicit panics in package syntax outside the parse stage
 	nPanic := 0
 	for _, fn := range p.FuncsOf(pkgSyntax) {
